@@ -165,7 +165,7 @@ def build_jobs(ctx, rng):
         add("generate_terrain", "generate_terrain", {"seed": rng.randrange(100), "zfactor": 4000}, H, W, "float32",
             "float", geo="unit")
     # stress family: many blocks running concurrently under the threaded scheduler (shared scratch state shows
-    # only when block tasks overlap in time): 96x96 rasters, 16x16 chunks, 7x7 / 5x5 kernels, 8 and 16 workers
+    # only when block tasks overlap in time): 288x288 rasters, 48x48 chunks, 7x7 / 5x5 kernels, 8-16 workers
     big = 7
     K7 = [[1 if (r + c) % 2 == 0 or r == c else 0 for c in range(big)] for r in range(big)]
     for (func, params, rad, kh, kw) in (
@@ -175,11 +175,11 @@ def build_jobs(ctx, rng):
             ("convolution_2d", {"kernel": [[float((r * 7 + c) % 5) for c in range(5)] for r in range(5)]}, (2, 2), 5, 5),
             ("focal_mean", {"passes": 2, "excludes": ["nan"]}, (1, 1), 1, 1),
             ("slope", {}, (1, 1), 1, 1), ("hotspots", {"kernel": K7}, (3, 3), 7, 7)):
-        H = W = 96
+        H = W = 288
         vals = [[float(rng.randrange(0, 1000)) for _ in range(W)] for _ in range(H)]
-        ch = [{"rows": [16] * 6, "cols": [16] * 6, "sched": "threads", "nw": nw} for nw in (8, 16, 16, 16, 12, 16)]
+        ch = [{"rows": [48] * 6, "cols": [48] * 6, "sched": "threads", "nw": nw} for nw in (8, 16, 16, 12)]
         if not quick:
-            ch += [{"rows": [8] * 12, "cols": [24] * 4, "sched": "threads", "nw": nw} for nw in (4, 16)]
+            ch += [{"rows": [24] * 12, "cols": [72] * 4, "sched": "threads", "nw": nw} for nw in (4, 16, 16, 16)]
         jobs.setdefault("stress_" + func, []).append(
             {"func": func, "params": params, "H": H, "W": W, "vals": vals, "dtype": "float64", "radius": list(rad),
              "chunkings": ch, "kh": kh, "kw": kw, "passes": params.get("passes", 1), "xs": None, "ys": None,
